@@ -136,6 +136,29 @@ def ring_rules(rng, R, V=("a", "b")):
     return rules
 
 
+def chord_rules(rng, R, V=("a", "b")):
+    """One UNARY strongly connected component of 3-4 nonterminals with chords (a node with two back edges: R -> M,
+    M -> A, A -> R, A -> M), entered from the start symbol or containing it, with terminal exits; the nonterminals are
+    taken in a random order so that every visiting order of the component decomposition occurs."""
+    k = rng.choice([3, 4, 4])
+    Ns = rng.sample(NT_NAMES[:5], k)
+    ws = weights_for(R)
+    V = list(V)
+    rules = [(rng.choice(ws), x, (y,)) for x, y in zip(Ns, Ns[1:] + Ns[:1])]          # the big cycle
+    for _ in range(rng.choice([1, 2, 3])):                                           # chords
+        x, y = rng.sample(Ns, 2)
+        rules.append((rng.choice(ws), x, (y,)))
+    for x in Ns:
+        if rng.random() < 0.6:
+            rules.append((rng.choice(ws), x, (rng.choice(V),)))
+    rules.append((rng.choice(ws), Ns[-1], (rng.choice(V),)))
+    if "S" not in Ns:
+        rules.append((rng.choice(ws), "S", (rng.choice(Ns),)))
+        rules.append((rng.choice(ws), "S", (rng.choice(Ns), rng.choice(V))))
+    rng.shuffle(rules)
+    return rules
+
+
 def twocycle_rules(rng, R, V=("a", "b")):
     """Two separate unary cycles (A <-> B and C <-> D, possibly through the start symbol) joined by a unary bridge,
     with terminal exits: unary-cycle removal must keep the bridge."""
@@ -163,6 +186,9 @@ def rand_cfg(rng, R, **kw):
     if kw.get("shape") == "twocycles":
         V = kw.pop("V", ("a", "b"))
         return build_cfg(R, twocycle_rules(rng, R, V=V), V=V)
+    if kw.get("shape") == "chord":
+        V = kw.pop("V", ("a", "b"))
+        return build_cfg(R, chord_rules(rng, R, V=V), V=V)
     if kw.get("shape") == "ring":
         V = kw.pop("V", ("a", "b"))
         return build_cfg(R, ring_rules(rng, R, V=V), V=V)
